@@ -192,6 +192,10 @@ class C15(Prop):
         case = workload.gen_case("C15", seed, limits=(1, 2, 3, 5), beta_forms=("int", "float", "vector_const", "vector_rand"),
                                  lambda_values=(0.11, 0.5, 2.0), T=(None, 100), knob_p=0.2)
         case["pool"]["prange"] = "identity"
+        r = core.rng(seed, "C15", "offset")
+        if r.random() < 0.15:
+            # raw sensor values riding on a large offset (pressures, timestamps)
+            case["data"]["shift"] = [r.choice([1e4, 1e6, -1e5, 1e8]) for _ in range(case["data"]["N"])]
         return case
 
     def run_case(self, idx, seed, tier, mode):
